@@ -183,13 +183,15 @@ def findFVOffset (data : Bytes) : Option Nat :=
   | none => none
   | some h => if h < 40 then none else some (h - 40)
 
-/-- block map: 8-byte `{Count, Size}` entries up to a `{0,0}` terminator; `false` = EOF first -/
-def readBlocks : Nat → Bytes → Bool
-  | 0, _ => false
-  | fuel+1, b =>
-    if b.length < 8 then false
+/-- block map: 8-byte `{Count, Size}` entries up to a `{0,0}` terminator; `false` = EOF first, or
+    (fix 53530a3) an entry at `pos` that does not end inside the volume (`pos + 8 > Length`) -/
+def readBlocks (length : Nat) : Nat → Bytes → Nat → Bool
+  | 0, _, _ => false
+  | fuel+1, b, pos =>
+    if pos + 8 > length then false
+    else if b.length < 8 then false
     else if fromLE (slice b 0 4) = 0 ∧ fromLE (slice b 4 4) = 0 then true
-    else readBlocks fuel (b.drop 8)
+    else readBlocks length fuel (b.drop 8) (pos + 8)
 
 /-- `uefi.SetErasePolarity` (SuppressErasePolarityError = false); `ep` is 0xFF or 0 here -/
 def setPolarity (pol ep : Nat) : Except Err Nat :=
@@ -220,7 +222,7 @@ def ffsFiles (data : Bytes) (length : Nat) : Except Err Unit :=
 /-- `NewFirmwareVolume(data, …)`: the volume's `Length` and polarity, and the new global polarity -/
 def parseFV (pol : Nat) (data : Bytes) : Except Err (Nat × Nat × Nat) :=
   if data.length < fvMinSize then .error .parse else
-  if ! readBlocks (data.length / 8 + 1) (data.drop fvFixedHeader) then .error .parse else
+  if ! readBlocks (fromLE (slice data 32 8)) (data.length / 8 + 1) (data.drop fvFixedHeader) fvFixedHeader then .error .parse else
   let ep := if fromLE (slice data 44 4) / 0x800 % 2 = 1 then 0xFF else 0
   match setPolarity pol ep with
   | .error e => .error e
